@@ -218,11 +218,33 @@ def arr_binop(ex, st, op, l, r, node):
         ex.oblige(st, 'safety', 'division-by-nonzero', Z(c) != 0, node)
         return scale_arr(ex, st, 1 / to_real(c), l, node)
     if la and ra and isinstance(op, (ast.Add, ast.Sub, ast.Mult, ast.Div)):
-        # elementwise with equal shapes (broadcast of equal ndim, equal dims)
+        # elementwise: equal shapes, or NumPy broadcasting of literal size-1 axes / missing leading axes
         if l.ndim != r.ndim:
-            raise Unsupported('broadcasting between different ndim')
+            lo, hi = (l, r) if l.ndim < r.ndim else (r, l)
+            pad = (1,) * (hi.ndim - lo.ndim) + tuple(lo.shape)
+            shp = []
+            for a, b in zip(pad, hi.shape):
+                if isinstance(a, int) and a == 1:
+                    shp.append(b)
+                else:
+                    ex.oblige(st, 'call-pre', 'broadcast-shapes-agree', Z(a) == Z(b), node)
+                    shp.append(b)
+            used('elementwise operation with NumPy broadcasting of leading axes')
+            return VArr(tuple(shp), None, None)
+        bshape, bc = [], False
         for a, b in zip(l.shape, r.shape):
-            ex.oblige(st, 'call-pre', 'elementwise-shapes-agree', Z(a) == Z(b), node)
+            if isinstance(a, int) and a == 1 and not (isinstance(b, int) and b == 1):
+                bshape.append(b)
+                bc = True
+            elif isinstance(b, int) and b == 1 and not (isinstance(a, int) and a == 1):
+                bshape.append(a)
+                bc = True
+            else:
+                ex.oblige(st, 'call-pre', 'elementwise-shapes-agree', Z(a) == Z(b), node)
+                bshape.append(a)
+        if bc:
+            used('elementwise operation with NumPy broadcasting of size-1 axes')
+            return VArr(tuple(bshape), None, None)
         if isinstance(op, ast.Add) and l.tag in ('mat', 'vec') and r.tag == l.tag and l.t is not None and r.t is not None:
             return VArr(l.shape, T.madd(l.t, r.t), l.tag)
         if isinstance(op, ast.Sub) and l.tag in ('mat', 'vec') and r.tag == l.tag and l.t is not None and r.t is not None:
@@ -986,6 +1008,7 @@ def m_sqrt(ex, st, args, kwargs, node):
     used('np.sqrt(x) -> s with s >= 0 and s*s == x')
     s = ex.fresh_real('sqrt')
     st.assume(s >= 0, s * s == to_real(v))
+    st.ghost.setdefault('sqrt', []).append((to_real(v), s))
     return s
 
 
@@ -1127,6 +1150,12 @@ def reshape(ex, st, a, shp, order, node):
             if _same(st, m_, T.mul_canon(s0, s1)) and _same(st, c_, Z(s2)):
                 t = T.foldL(a.t, Z(s0), Z(s1)) if a.tag == 'mat' and a.t is not None else None
                 return VArr((s0, s1, s2), t, 'core' if t is not None else None)
+        if isinstance(s0, int) and s0 == -1 and _same(st, c_, T.mul_canon(s1, s2)):
+            t = T.foldR(a.t, Z(s1), Z(s2)) if a.tag == 'mat' and a.t is not None else None
+            return VArr((m_, s1, s2), t, 'core' if t is not None else None)
+        if isinstance(s2, int) and s2 == -1 and _same(st, m_, T.mul_canon(s0, s1)):
+            t = T.foldL(a.t, Z(s0), Z(s1)) if a.tag == 'mat' and a.t is not None else None
+            return VArr((s0, s1, c_), t, 'core' if t is not None else None)
         if not isinstance(s0, int) or s0 != -1:
             if _same(st, m_, Z(s0)) and _same(st, c_, T.mul_canon(s1, s2)):
                 t = T.foldR(a.t, Z(s1), Z(s2)) if a.tag == 'mat' and a.t is not None else None
@@ -1262,3 +1291,43 @@ def m_hstack(ex, st, args, kwargs, node):
     t = T.hcat(a.t, b.t) if (a.tag == 'mat' and b.tag == 'mat' and a.t is not None and b.t is not None) else None
     return VArr((a.shape[0], Z(a.shape[1]) + Z(b.shape[1])), t, 'mat' if t is not None else None,
                 'i' if a.dtype == 'i' and b.dtype == 'i' else 'f')
+
+
+@model('np.linalg.norm')
+def m_norm(ex, st, args, kwargs, node):
+    v = st.deref(args[0])
+    if kwargs or len(args) != 1:
+        raise Unsupported('np.linalg.norm with axis / ord')
+    used('np.linalg.norm(x) -> Frobenius norm, a non-negative real (fro(G) for a core)')
+    if isinstance(v, VArr) and v.tag == 'core' and v.t is not None:
+        return T.fro(v.t)
+    if isinstance(v, (VArr, VOpaque)):
+        r = ex.fresh_real('norm')
+        st.assume(r >= 0)
+        return r
+    raise Unsupported('np.linalg.norm of a non-array')
+
+
+@model('np.einsum')
+def m_einsum(ex, st, args, kwargs, node):
+    sub = args[0].concrete() if isinstance(args[0], VStr) else None
+    ops = [st.deref(a) for a in args[1:]]
+    key = (sub or '').replace(' ', '')
+    if key == 'ijq,ql' and len(ops) == 2:
+        G, Umat = ops
+        if isinstance(G, VArr) and G.ndim == 3 and isinstance(Umat, VArr) and Umat.ndim == 2:
+            used("np.einsum('ijq,ql', G, U) -> core times matrix on the right bond (cmulR); requires r2(G) = rows(U)")
+            ex.oblige(st, 'call-pre', 'einsum-contracted-dimensions-agree', Z(G.shape[2]) == Z(Umat.shape[0]), node)
+            t = T.cmulR(G.t, Umat.t) if (G.tag == 'core' and G.t is not None and Umat.tag == 'mat' and Umat.t is not None) else None
+            return VArr((G.shape[0], G.shape[1], Umat.shape[1]), t, 'core' if t is not None else None)
+    if key == 'rmq,m->rq' and len(ops) == 2:
+        G, pv = ops
+        if isinstance(G, VArr) and G.ndim == 3 and isinstance(pv, VArr) and pv.ndim == 1:
+            used("np.einsum('rmq,m->rq', G, p) -> weighted mode sum (wsum); requires len(p) = n(G)")
+            ex.oblige(st, 'call-pre', 'einsum-contracted-dimensions-agree', Z(G.shape[1]) == Z(pv.shape[0]), node)
+            wt = getattr(pv, 'wt', None)
+            t = T.wsum(G.t, wt) if (G.tag == 'core' and G.t is not None and wt is not None) else None
+            return VArr((G.shape[0], G.shape[2]), t, 'mat' if t is not None else None)
+    if ex.lenient:
+        return VOpaque('einsum')
+    raise Unsupported(f'np.einsum pattern {sub!r}')
